@@ -65,11 +65,13 @@ func c11RunConnect(t rt.TB, c c11Connect) {
 		connections := make([]ro.Subscription, c.Connectors)
 		var wg sync.WaitGroup
 		start := make(chan struct{})
+		bar := rt.NewBarrier(len(connections))
 		for i := range connections {
 			wg.Add(1)
 			go func(i int) {
 				defer wg.Done()
 				<-start
+				bar.Wait()
 				connections[i] = conn.Connect()
 			}(i)
 		}
